@@ -167,7 +167,7 @@ theorem vps_pid_was_received_before (cfg : Cfg) (hist : List Atom) (t : Nat) (b 
     (h : Ev.progId p ∈ (stepAtom cfg (runAtoms cfg init hist).1 (.line t (.vps b))).2) :
     p = decodeVpsPdc b ∧ decodeVpsPdc b ∈ vpsLabels hist := by
   simp only [stepAtom, rxLine] at h
-  have f := rxVps_progId_full cfg.lk _ b p h
+  have f := rxVps_progId_full cfg _ b p h
   refine ⟨f.1, ?_⟩
   have nz : decodeVpsPdc b ≠ {} := by
     intro e
@@ -182,27 +182,35 @@ theorem vps_pid_was_received_before (cfg : Cfg) (hist : List Atom) (t : Nat) (b 
 def p8301Demo : Line := .ttx [0x15,0xEA,0x15,0xEA,0xEA,0xEA,0x2F,0xEA,0x5E,0x48,0x2C,0x85,0x26,0x98,0x65,0x23,0x11,0x11,0x20,0x20,
   0x20,0x20,0x20,0x20,0x20,0x20,0x20,0x20,0x20,0x20,0x20,0x20,0x20,0x20,0x20,0x20,0x20,0x20,0x20,0x20,0x20,0x20]
 
+/-- the table of the tree under test with the shared debounce cycle (F11 unrepaired) resp. one cycle per carrier -/
+def cfgShared : Cfg := { cfg0 with perCarrier := false }
+def cfgPer : Cfg := { cfg0 with perCarrier := true }
+
 /-- Why `vps_pid_repeat_complete` excludes Teletext lines (and XDS names) between the two VPS lines: VPS lines that
-    arrive while nothing is pending are not looked at, and the debounce cycle is shared with the other carriers.
+    arrive while nothing is pending are not looked at, and in the shared-cycle shape (`perCarrier = false`, F11) the
+    debounce cycle is shared with the other carriers.
     Label P1 announced; a line with another PTY (ignored); a new 8/30 format 1 CNI starts a cycle; P1 again is
     announced by comparison with the label stored three VPS lines ago, although the PREVIOUS VPS line carried a
     different one.  `vps_pid_was_received_before` is what holds in every interleaving.  (Observation; the same
-    history on the real code: corpus/C13/obs-vps-pid-stale-label.ops.) -/
+    history on the real code: corpus/C13/obs-vps-pid-stale-label.ops.)  With one cycle per carrier the Teletext
+    packet does not make the VPS block look at its line: no PROG_ID (last conjunct). -/
 theorem vps_pid_interleaved_observation :
-    (runAtoms cfg0 init [.mask 3534, .line 0 (vpsPty 0x31), .line 0 (vpsPty 0x31), .line 0 (vpsPty 0x35), .line 0 p8301Demo]).1.vpsPid
+    (runAtoms cfgShared init [.mask 3534, .line 0 (vpsPty 0x31), .line 0 (vpsPty 0x31), .line 0 (vpsPty 0x35), .line 0 p8301Demo]).1.vpsPid
       = decodeVpsPdc [0, 0, 0x80, 0, 0, 0, 0, 0, 0xC0, 0xD1, 0x5A, 0x81, 0x31] ∧
-    ((stepAtom cfg0 (runAtoms cfg0 init [.mask 3534, .line 0 (vpsPty 0x31), .line 0 (vpsPty 0x31), .line 0 (vpsPty 0x35),
+    ((stepAtom cfgShared (runAtoms cfgShared init [.mask 3534, .line 0 (vpsPty 0x31), .line 0 (vpsPty 0x31), .line 0 (vpsPty 0x35),
         .line 0 p8301Demo]).1 (.line 0 (vpsPty 0x31))).2.filter (·.isExtra)) =
-      [Ev.progId (decodeVpsPdc [0, 0, 0x80, 0, 0, 0, 0, 0, 0xC0, 0xD1, 0x5A, 0x81, 0x31])] := by decide
+      [Ev.progId (decodeVpsPdc [0, 0, 0x80, 0, 0, 0, 0, 0, 0xC0, 0xD1, 0x5A, 0x81, 0x31])] ∧
+    ((stepAtom cfgPer (runAtoms cfgPer init [.mask 3534, .line 0 (vpsPty 0x31), .line 0 (vpsPty 0x31), .line 0 (vpsPty 0x35),
+        .line 0 p8301Demo]).1 (.line 0 (vpsPty 0x31))).2.filter (·.isExtra)) = [] := by decide
 
 /-! ## packet 8/30 format 2 -/
 
 /-- A PROG_ID event from Teletext is the label of this very packet in every field (LCI, LUF, PRF, PCS audio, MI,
     CNI, PIL, PTY as `vbi_decode_teletext_8302_pdc` decodes them).  libzvbi does not debounce it: the packet is
     Hamming 8/4 protected and every valid packet is announced (next theorem). -/
-theorem pid_8302_is_this_packets_label (lk : Lookup) (s : State) (b : Buf) (p : Pid)
-    (h : Ev.progId p ∈ (rxTtx lk s b).2) : decode8302Pdc b = some p ∧ pidFields p = (decode8302Pdc b).elim [] pidFields := by
-  have e := rxTtx_progId lk s b p h
+theorem pid_8302_is_this_packets_label (cfg : Cfg) (s : State) (b : Buf) (p : Pid)
+    (h : Ev.progId p ∈ (rxTtx cfg s b).2) : decode8302Pdc b = some p ∧ pidFields p = (decode8302Pdc b).elim [] pidFields := by
+  have e := rxTtx_progId cfg s b p h
   exact ⟨e, by rw [e]; rfl⟩
 
 /-- a packet 8/30 format 2: CNI 0x1234, PIL 0x2B0C0, PTY 0x31, LCI 1, PRF, PCS 2, MI -/
